@@ -17,8 +17,6 @@ namespace GqlModel.Exec
 
 /-! ## the measure -/
 
-def unvisited (c : Ctx) (vis : List String) : Nat := (c.frags.map (·.1)).countP (fun n => !vis.contains n)
-
 theorem frag?_some_mem {c : Ctx} {n : String} {x : TypeRef × SelectionSet} (h : c.frag? n = some x) :
     n ∈ c.frags.map (·.1) := by
   unfold Ctx.frag? at h
